@@ -2,7 +2,9 @@
    into the heap of Store.v, per-site canonical-form labels, the norm and the singular values.
    Definitions only; proofs in Proofs/StoreMpsP.v, statements in Props/C03.v (theorems T03_mps_...).
    Every heap effect below is one of the eleven transformers `exec h o` of Store.v (which harness/c03.py ties to
-   the code by replaying histories); the definitions of this file themselves are NOT replayed by a checker: they are
+   the code by replaying histories); the definitions of this file are replayed on MPS-level histories executed by the
+   code (stream `mps-history` of harness/c03.py, Model/StoreMpsCheck.v `check_mps_history`: mps_init, get_B, set_B,
+   run_meas and exec against the observed changes of the caller's tensors and of psi._B[j]).  They are
    a reading of tenpy/networks/mps.py, case of trivial charge shift (shift_Array_unit_cells returns its argument:
    `if self.chinfo.trivial_shift or dx_0 == 0: return self`) and label_p=None:
 
